@@ -931,7 +931,8 @@ def scan_file_times(files: list[Path]) -> tuple[np.ndarray, dict[Path, int]]:
             new_times = nc.variables["ocean_time"][:]
             num_frames[fname] = len(new_times)
             units = nc.variables["ocean_time"].units
-            new_frames = num2date(new_times, units)
+            calendar = getattr(nc.variables["ocean_time"], "calendar", "standard")
+            new_frames = num2date(new_times, units, calendar)
             frames.extend(new_frames)
     all_frames = np.array([np.datetime64(tf) for tf in frames])
 
